@@ -393,7 +393,7 @@ class Schema(dict, metaclass=LogicalMeta):
                 )
             super().__delitem__(field.name)
 
-        if field.name in self.__dict__:
+        if field.attname in self.__dict__:
             self.__dict__.pop(field.attname)
 
     def __delitem__(self, key: str):
@@ -435,7 +435,10 @@ class Schema(dict, metaclass=LogicalMeta):
                 f"{self.__name__}: Attempt to delete required schema key: {repr(key)}"
             )
         args = () if unprovided(default) else (default,)
-        return super().pop(field.name, *args)
+        value = super().pop(field.name, *args)
+        # keep the attribute view in step with the key view
+        self.__dict__.pop(field.attname, None)
+        return value
 
     def update(self, __m=None, **kwargs):
         if self.__options__.immutable:
@@ -499,7 +502,10 @@ class Schema(dict, metaclass=LogicalMeta):
                 raise exc.DeleteError(
                     f"{self.__name__}: Attempt to delete required schema key: {repr(key)}"
                 )
-        return super().clear()
+        super().clear()
+        # keep the attribute view in step with the key view
+        for field in self.__parser__.fields.values():
+            self.__dict__.pop(field.attname, None)
 
 
 DataClass.__init_subclass__()
